@@ -22,6 +22,9 @@ structure View where
   junk : List String
   /-- lock / network actions of the calling thread, as logged by the hooks (implementation views) -/
   la : List Act := []
+  /-- directory entries outside the storage directory changed by this call (observed for repeated inits; the model's
+      calls touch nothing outside the storage directory they were initialised with) -/
+  outside : Nat := 0
 deriving Repr, Inhabited
 
 def View.art (v : View) (n : Nat) : Option Art := v.arts.lookup n
@@ -347,11 +350,12 @@ def G03.next (env : Env) (g : G03) (op : Op) (pre post : View) : G03 :=
   match succeededBy g.cfg op pre with
   | some n =>
     -- the patch that just booted is "good" if every record of its number matches the artifact in place
-    (match post.fileOf n, post.ps.last with
-    | some b, some m =>
-      if m.number = n ∧ post.slotsValid env (g.cfg.bind (·.key)) n then { cfg := cfg, good := some (n, b), blind := false }
+    -- (which patch the implementation RECORDED as last good is not consulted: the last good patch is the one that booted)
+    (match post.fileOf n with
+    | some b =>
+      if post.slotsValid env (g.cfg.bind (·.key)) n then { cfg := cfg, good := some (n, b), blind := false }
       else { cfg := cfg, good := none, blind := true }
-    | _, _ => { cfg := cfg, good := none, blind := true })
+    | none => { cfg := cfg, good := none, blind := true })
   | none =>
     if op.isStateDamage then { cfg := cfg, good := none, blind := true } else
     match g.good with
@@ -478,7 +482,8 @@ def mon14 : Monitor G14 where
     | .init _, some _ =>
       [ (post.ret = .bool false, "C14: a repeated init reported success"),
         (post.sj = pre.sj ∧ post.pj = pre.pj ∧ post.pdir = pre.pdir ∧ post.arts = pre.arts ∧ post.junk = pre.junk,
-          "C14: a repeated init changed the storage directory") ]
+          "C14: a repeated init changed the storage directory"),
+        (post.outside = 0, "C14: a repeated init changed the disk outside the storage directory in use (the directories it was given)") ]
     | _, _ => []
 
 /-! #### C20: requests identify exactly this app, release and the selected channel -/
